@@ -164,8 +164,6 @@ func c07(r *Run) {
 	isNone := cmpAtom(statusCall, isConstEq(ro.whoNone), eqRel)
 	notUser := cmpAtom(statusCall, isConstEq(ro.whoUser), neqRel)
 	notPoller := cmpAtom(statusCall, isConstEq(ro.whoPoller), neqRel)
-	byPoller := cmpAtom(statusCall, isConstEq(ro.whoPoller), eqRel)
-	byUser := cmpAtom(statusCall, isConstEq(ro.whoUser), eqRel)
 	for _, fn := range []*ssa.Function{waitRead, waitReadT} {
 		recvs := findIns(fn, func(i ssa.Instruction) bool {
 			if u, ok := i.(*ssa.UnOp); ok && u.Op == token.ARROW && strings.HasSuffix(pathOf(u.X), ".readTrigger") {
@@ -202,26 +200,8 @@ func c07(r *Run) {
 			}
 			r.obW("C07.R2:block-only-when-open:"+key, "the reader blocks on the trigger only after observing closing==none (a connection that is already closed will never be triggered again)", fn, rc, wit, "guarded by status(closing)==none")
 		}
-		// error mapping
-		for _, m := range []struct {
-			name string
-			fact Atom
-			want string
-			bad  []string
-		}{{"peer", byPoller, "ErrEOF", []string{"ErrConnClosed", "ErrReadTimeout"}}, {"user", byUser, "ErrConnClosed", []string{"ErrEOF", "ErrReadTimeout"}}} {
-			starts := edgesEstablishing(fn, m.fact)
-			r.mustPass("C07.R2:closed-by-"+m.name+"-returns-"+m.want+":"+fn.Name(), "once the wait loop sees the connection closed by the "+m.name+" every path returns Exception("+m.want+") without blocking again", fn, nil, starts,
-				w.isException(m.want), nil, nil, "Exception("+m.want+") on every path")
-			stopR, cutR, _ := recvMatchers(fn, ".readTrigger")
-			bad := []func(ssa.Instruction) bool{stopR, func(i ssa.Instruction) bool { s, ok := i.(*ssa.Select); return ok && s.Blocking }}
-			for _, b := range m.bad {
-				bad = append(bad, w.isException(b))
-			}
-			_ = cutR
-			r.neverReach("C07.R2:closed-by-"+m.name+"-no-other-outcome:"+fn.Name(), "the closed-by-"+m.name+" branch neither blocks again nor produces another error", fn, nil, starts,
-				anyOf(bad...), nil, nil, nil, "no receive / other Exception reachable")
-		}
 	}
+	errMappingRules(r, "C07.R2")
 
 	// ---- R3 close wakes ----------------------------------------------------------------------------
 	for _, c := range []struct {
@@ -478,4 +458,34 @@ func nilGuards(r *Run) {
 	if n == 0 {
 		r.ob("C07.R6:nil-addr-guard:sites", "address methods are used somewhere", nil, nil, false, "no site found: anchor lost", false)
 	}
+}
+
+// errMappingRules: once the wait loops see the connection closed, the error returned says who closed it.
+func errMappingRules(r *Run, prefix string) {
+	w := r.W
+	ro := rolesOf(w)
+	statusCall := isCallOf(ro.status, ro.kClosing)
+	byPoller := cmpAtom(statusCall, isConstEq(ro.whoPoller), eqRel)
+	byUser := cmpAtom(statusCall, isConstEq(ro.whoUser), eqRel)
+	for _, fn := range []*ssa.Function{w.MustFn("(*connection).waitRead"), w.MustFn("(*connection).waitReadWithTimeout")} {
+		// error mapping
+		for _, m := range []struct {
+			name string
+			fact Atom
+			want string
+			bad  []string
+		}{{"peer", byPoller, "ErrEOF", []string{"ErrConnClosed", "ErrReadTimeout"}}, {"user", byUser, "ErrConnClosed", []string{"ErrEOF", "ErrReadTimeout"}}} {
+			starts := edgesEstablishing(fn, m.fact)
+			r.mustPass(prefix+":closed-by-"+m.name+"-returns-"+m.want+":"+fn.Name(), "once the wait loop sees the connection closed by the "+m.name+" every path returns Exception("+m.want+") without blocking again", fn, nil, starts,
+				w.isException(m.want), nil, nil, "Exception("+m.want+") on every path")
+			stopR, cutR, _ := recvMatchers(fn, ".readTrigger")
+			bad := []func(ssa.Instruction) bool{stopR, func(i ssa.Instruction) bool { s, ok := i.(*ssa.Select); return ok && s.Blocking }}
+			for _, b := range m.bad {
+				bad = append(bad, w.isException(b))
+			}
+			_ = cutR
+			r.neverReach(prefix+":closed-by-"+m.name+"-no-other-outcome:"+fn.Name(), "the closed-by-"+m.name+" branch neither blocks again nor produces another error", fn, nil, starts,
+				anyOf(bad...), nil, nil, nil, "no receive / other Exception reachable")
+		}
+		}
 }
